@@ -195,9 +195,9 @@ def build_units_probes(b):
 # on 8 shards and a thorough one for roughly 6-12 min on 16 shards including its libFuzzer campaign (bounded by case count, never by a clock;
 # measured after malloc_context_size=5 halved the run times)
 TIER_SCALE = {
-    'C01': (12, 30), 'C02': (15, 40), 'C03': (20, 30), 'C04': (3, 15), 'C05': (1.5, 2), 'C06': (5, 6), 'C07': (15, 40), 'C08': (20, 60),
-    'C09': (4, 1.3), 'C10': (2, 5), 'C11': (12, 18), 'C12': (1.5, 2.6), 'C13': (1, 0.4), 'C14': (1, 1), 'C15': (0.7, 1), 'C16': (15, 60),
-    'C17': (16, 35), 'C18': (1, 1), 'C19': (12, 30), 'C20': (20, 40),
+    'C01': (24, 30), 'C02': (40, 40), 'C03': (20, 30), 'C04': (10, 15), 'C05': (2, 2), 'C06': (8, 6), 'C07': (20, 40), 'C08': (40, 60),
+    'C09': (4, 1.3), 'C10': (3, 5), 'C11': (12, 18), 'C12': (1.5, 2.6), 'C13': (1, 3), 'C14': (1, 1), 'C15': (0.7, 1), 'C16': (45, 60),
+    'C17': (32, 35), 'C18': (1, 1), 'C19': (12, 30), 'C20': (25, 40),
 }
 
 FUZZ_CXX = 'clang++'
@@ -206,7 +206,7 @@ FUZZ_FLAGS = ['-std=c++14', '-O1', '-g', '-fno-omit-frame-pointer', '-fsanitize=
 # executions per worker (16 workers), calibrated with tools/fuzz_probe.py to roughly two minutes per campaign; every property has one
 # (D22, D23 and D27 were found by these campaigns, not by the random generators)
 FUZZ_RUNS = {'C01': 300000, 'C02': 2000000, 'C03': 100000, 'C04': 600000, 'C05': 40000, 'C06': 2000000, 'C07': 150000, 'C08': 250000, 'C09': 80000,
-             'C10': 200000, 'C11': 100000, 'C12': 1500, 'C13': 150000, 'C14': 800, 'C15': 8000, 'C16': 1500000, 'C17': 2000000, 'C18': 3000,
+             'C10': 200000, 'C11': 100000, 'C12': 1500, 'C13': 20000, 'C14': 800, 'C15': 8000, 'C16': 1500000, 'C17': 2000000, 'C18': 3000,
              'C19': 80000, 'C20': 200000}
 
 def build_fuzz(b, pid, jobs=NCPU):
